@@ -106,40 +106,40 @@ Proof.
   apply AddsOK_app; [exact H1|]. apply AddsOK_app; [|exact H3]. apply AddsOK_scope. exact H2.
 Qed.
 
-Lemma local_go_adds flv : forall es ns ls ats g,
+(* the variables local_add_acts creates are the declarations of the statement *)
+Lemma local_add_acts_decls : forall es ns ls ats,
   length ns = length ls -> length ns = length ats -> (length es <= length ns)%nat ->
-  Forall ExpAdds es -> forallb frag_exp es = true ->
-  AddsOK (fst (local_go flv ns ls ats es g)) (flat_map d_exp es ++ local_decls ns ls ats es None).
+  adds_of (local_add_acts ns ls ats es) = map var_of_decl (local_decls ns ls ats es None).
 Proof.
-  induction es as [|e es' IH]; intros ns ls ats g Hl Ha Hle Hok Hf.
-  - rewrite local_go_nil. cbn [fst flat_map app]. unfold AddsOK. rewrite local_rest_decls by (intros; discriminate).
-    apply Permutation_refl.
+  induction es as [|e es' IH]; intros ns ls ats Hl Ha Hle.
+  - cbn [local_add_acts]. apply local_rest_decls. intros; discriminate.
   - destruct ns as [|n ns']; [cbn in Hle; lia|].
     destruct ls as [|l ls']; [discriminate|]. destruct ats as [|a ats']; [discriminate|].
     assert (Hl' : length ns' = length ls') by (cbn [length] in Hl; lia).
     assert (Ha' : length ns' = length ats') by (cbn [length] in Ha; lia).
     assert (Hle' : (length es' <= length ns')%nat) by (cbn [length] in Hle; lia).
-    inversion Hok as [|? ? He Hr]; subst.
-    cbn [forallb] in Hf. apply andb_true_iff in Hf. destruct Hf as [Hf1 Hf2].
-    rewrite local_go_cons. pose proof (He Hf1 None flv g) as H1.
-    destruct (tr_exp e None flv g) as [a1 g1]. cbn [fst] in H1. cbv zeta.
+    cbn [local_add_acts local_decls map].
     set (v := mkVar n l false (match a with AttrClose => true | _ => false end) (is_func_exp e) (Some e)
                     (local_refer_empty n e) []).
     assert (Hv : var_of_decl (mkDecl n l DLocal (match a with AttrClose => true | _ => false end) (Some e)
                                      (local_refer_empty n e)) = v) by reflexivity.
-    cbn [flat_map local_decls].
-    destruct es' as [|e2 es2].
-    + cbn [fst flat_map]. rewrite app_nil_r. unfold AddsOK in *.
-      rewrite adds_of_app, map_app. apply Permutation_app; [exact H1|].
-      cbn [map]. rewrite Hv. change (adds_of (AAdd v :: ?r)) with (v :: adds_of r).
-      apply perm_skip. rewrite local_rest_decls by apply lastcall_not_func. apply Permutation_refl.
-    + pose proof (IH ns' ls' ats' g1 Hl' Ha' Hle' Hr Hf2) as H2.
-      destruct (local_go flv ns' ls' ats' (e2 :: es2) g1) as [a2 g2]. cbn [fst] in *.
-      unfold AddsOK in *. rewrite adds_of_app. change (adds_of (AAdd v :: a2)) with (v :: adds_of a2).
-      rewrite <- app_assoc, !map_app. apply Permutation_app; [exact H1|].
-      cbn [map]. rewrite Hv.
-      eapply Permutation_trans; [apply perm_skip; exact H2|].
-      rewrite map_app. apply Permutation_middle.
+    rewrite Hv. destruct es' as [|e2 es2].
+    + change (adds_of (AAdd v :: ?r)) with (v :: adds_of r). f_equal.
+      apply local_rest_decls. apply lastcall_not_func.
+    + change (adds_of (AAdd v :: ?r)) with (v :: adds_of r). f_equal. apply IH; assumption.
+Qed.
+
+Lemma local_go_adds flv slv l : forall es ns ls ats g,
+  length ns = length ls -> length ns = length ats -> (length es <= length ns)%nat ->
+  Forall ExpAdds es -> forallb frag_exp es = true ->
+  AddsOK (fst (tr_stat (SLocal ns ls ats es l) flv slv g)) (flat_map d_exp es ++ local_decls ns ls ats es None).
+Proof.
+  intros es ns ls ats g Hl Ha Hle Hok Hf.
+  rewrite tr_stat_local, local_vis_thread, (local_visited_all es ns ls ats Hl Ha Hle).
+  pose proof (thread_exps_adds flv es g Hok Hf) as H1.
+  destruct (thread (fun x g0 => tr_exp x None flv g0) es g) as [a1 g1]. cbn [fst] in *.
+  apply AddsOK_app; [exact H1|]. unfold AddsOK. rewrite (local_add_acts_decls es ns ls ats Hl Ha Hle).
+  apply Permutation_refl.
 Qed.
 
 Theorem adds_all : (forall e, ExpAdds e) /\ (forall s, StatAdds s) /\ (forall b, BlockAdds b).
@@ -240,7 +240,7 @@ Proof.
            | H : (_ =? _)%nat = true |- _ => apply Nat.eqb_eq in H
            | H : (_ <=? _)%nat = true |- _ => apply Nat.leb_le in H
            end.
-    rewrite tr_stat_local. cbn [d_stat]. apply local_go_adds; assumption.
+    cbn [d_stat]. apply local_go_adds; assumption.
   - (* SLocalFunc *) intros n nl f l IHf Hf flv slv g. cbn [frag_stat] in Hf.
     repeat (apply andb_true_iff in Hf; let H := fresh "Hf" in destruct Hf as [Hf H]).
     cbn [tr_stat d_stat]. pose proof (IHf ltac:(assumption) None flv g) as H1.
